@@ -41,8 +41,8 @@ class Opt(Sort):
 
 
 class DateTime(Sort):
-    def __init__(self, lo_year=1, hi_year=9999, midnight=False):
-        self.lo_year, self.hi_year, self.midnight = lo_year, hi_year, midnight
+    def __init__(self, lo_year=1, hi_year=9999, midnight=False, date=False):
+        self.lo_year, self.hi_year, self.midnight, self.date = lo_year, hi_year, midnight or date, date
 
 
 class Rec(Sort):
@@ -164,6 +164,8 @@ def build(I, sort, hint):
         d = libdt.fresh_datetime(I, hint, sort.lo_year, sort.hi_year)
         if sort.midnight:
             I.p.assume(I.term(d.sec) == 0)
+        if getattr(sort, 'date', False):
+            d.is_date = True          # a datetime.date, not a datetime.datetime at midnight
         return d
     if isinstance(sort, Const):
         return sort.value
@@ -311,6 +313,8 @@ def conforms(I, sort, v):
         cs = [I.term(y) >= sort.lo_year, I.term(y) <= sort.hi_year]
         if sort.midnight:
             cs.append(I.term(v.sec) == 0)
+        if bool(getattr(sort, 'date', False)) != bool(v.is_date):
+            return z3.BoolVal(False)
         return z3.And(*cs)
     if isinstance(sort, Rec):
         if not isinstance(v, Obj) or v.cls is None:
